@@ -17,4 +17,15 @@ PROPS = {
                         'crypto/rand draws of GREASE parameters are inputs to the model (only their shape is checked)'],
         'trusted': ['modelled: quicvarint.Read/Append/AppendWithLen/Len, TransportParameters.Marshal, typed parameters ID()/Value(); bytes.Reader is trusted'],
     },
+    'C36': {
+        'technique': 'Lean 4 refinement proof (code transcription = bounded LRU map for every history, invariant by induction) + atomic-step linearizability theorem; differential histories and Wing-Gong check of real concurrent histories',
+        'level_text': 'Kernel-checked: for every Put/Get history from the empty cache the transcription of lruSessionCache returns what the abstract LRU map returns (refinement under the invariant |entries|<=cap, keys distinct, itself proved for every reachable state); with each method atomic, every concurrent execution is linearized by lock order. Tied to the code by sequential differential histories and by real concurrent histories checked for linearizability by the Lean driver.',
+        'level_note': 'container/list+map are represented by one MRU-first list (validated by correspondence); atomicity of Put/Get under the mutex is a shape assumption exercised by concurrent runs; data-race freedom is not decided by the theorem (Go memory model).',
+        'families': {'lru': (3000, 300000), 'lru_conc': (1500, 60000)},
+        'rule': 'random Put/Put-nil/Get histories over 2-5 keys x capacities 1-5, default-capacity cases (cap<1) and 150-op histories around capacity 64; concurrent: 2-3 goroutines x 3-6 ops on one cache with invoke/response stamps. non-trivial = history with >= 8 ops or a concurrent history with overlapping calls',
+        'trivial_tag': r'len=0|len=short|sequential',
+        'required_tags': [r'lru:cap=1,.*full', r'lru:.*nilput', r'lru_conc:.*overlap', r'lru:cap=6'],
+        'assumptions': ['each lruSessionCache method runs atomically under its mutex (sync.Mutex semantics)', 'pointer identity of *ClientSessionState values is what Get returns (numbered by the harness)'],
+        'trusted': ['modelled: lruSessionCache.Put/Get/NewLRUClientSessionCache; container/list and Go maps trusted'],
+    },
 }
